@@ -145,6 +145,13 @@ def gen_vectors(rng, tier):
         add("tiny-entries", v, D20)
     for K in lengths:
         add("random", _composition(rng, D20, K, zero_frac=rng.choice([0.0, 0.0, 0.2])), D20)
+    # not probability vectors: the sum is slightly off 1 (what float vectors from the factory look like); only the exact
+    # model/implementation comparison and the range check apply (the clean-up loops of create_alias do real work here)
+    for K in (1, 2, 3, 5, 8, 13, 64):
+        for off in (-37, 5, -(1 << 12), 1 << 8):
+            tot = D20 + off
+            ints = _composition(rng, tot, K, zero_frac=rng.choice([0.0, 0.3]))
+            vecs.append(("sum-not-1", [Fr(v, D20) for v in ints]))
     return vecs
 
 
@@ -280,6 +287,97 @@ def _qpairs(us_outs):
     return lst([f"({qlit(u)}, {zlit(o)})" for u, o in us_outs])
 
 
+def _table_words(t, words):
+    """states returned by TableMethod.sample when random.getrandbits(32) yields the given 32-bit words"""
+    import random as _random
+    script = list(words)
+    orig = _random.getrandbits
+    _random.getrandbits = lambda nbits: script.pop(0)
+    try:
+        return [int(v) for v in t.sample(size=len(words))]
+    finally:
+        _random.getrandbits = orig
+
+
+def table_word_law(t, K, resid_limit=None, rng=None):
+    """EXACT law of TableMethod over the 2^32 words it consumes: {state: number of words}.  For every low byte b the map
+    m -> state of the word (m << 8) | b, m in [0, 2^24), is integrated exactly: partition of [0, 2^24) at the images of the
+    embedded alias thresholds (hints), every cell checked at both ends and in the middle, bisection where they differ.
+    With resid_limit only that many residual bytes are integrated (the count is then scaled: returns (law, exact?))."""
+    import random as _random
+    Jt = [int(v) for v in t.J]
+    N = 1 << 24
+    cur = [0]
+    orig = _random.getrandbits
+    _random.getrandbits = lambda nbits: cur[0]
+    counts = {}
+    try:
+        def ev(m, b_):
+            cur[0] = (m << 8) | b_
+            return int(t.sample(size=1)[0])
+        hints = set()
+        if t.alias_method is not None:
+            aK = int(t.alias_method.K)
+            for x in range(aK + 1):
+                for thr in (Fr(x, aK), (Fr(x) + Fr(float(t.alias_method.q[min(x, aK - 1)]))) / aK):
+                    m0 = int(thr * N)
+                    for dm in (-1, 0, 1, 2):
+                        if 0 < m0 + dm < N:
+                            hints.add(m0 + dm)
+        pts = sorted({0} | hints | {N * i // 16 for i in range(16)})
+        resid = [b_ for b_ in range(256) if Jt[b_] < 0]
+        todo = resid if resid_limit is None or len(resid) <= resid_limit else sorted(rng.sample(resid, resid_limit))
+        scale = Fr(len(resid), len(todo)) if todo else Fr(0)
+        for b_ in range(256):
+            if Jt[b_] >= 0:
+                # a table slot: the state must not depend on the upper 24 bits
+                seen = {ev(m, b_) for m in (0, 1, N - 1, N // 2, N // 3, 12345 % N)}
+                lab = Jt[b_]
+                if seen != {lab}:
+                    counts[("slot-depends-on-upper-bits", b_)] = counts.get(("slot-depends-on-upper-bits", b_), 0) + 1
+                counts[lab] = counts.get(lab, 0) + N
+                continue
+            if b_ not in todo:
+                continue
+            local = {}
+
+            def rec(lo, flo, hi, fhi):          # [lo, hi] inclusive integer range, labels at both ends
+                if flo == fhi and (hi - lo <= 1 or ev((lo + hi) // 2, b_) == flo):
+                    local[flo] = local.get(flo, 0) + (hi - lo + 1)
+                    return
+                if hi - lo <= 1:
+                    local[flo] = local.get(flo, 0) + 1
+                    if hi > lo:
+                        local[fhi] = local.get(fhi, 0) + 1
+                    return
+                mid = (lo + hi) // 2
+                rec(lo, flo, mid, ev(mid, b_))
+                rec(mid + 1, ev(mid + 1, b_), hi, fhi)
+            for i, lo in enumerate(pts):
+                hi = (pts[i + 1] if i + 1 < len(pts) else N) - 1
+                rec(lo, ev(lo, b_), hi, ev(hi, b_))
+            for lab, c in local.items():
+                counts[lab] = counts.get(lab, 0) + c * scale
+    finally:
+        _random.getrandbits = orig
+    return counts, (resid_limit is None or len(resid) <= (resid_limit or 0))
+
+
+def _two_orders(rng, viol, name, p, outs, f, fresh):
+    """outs = [(u, state)] obtained in one order: the same uniforms in another order on the same object, and on a fresh
+    object, must give the same states (cost counters, caches or any other hidden state must not leak into the output)"""
+    perm = list(range(len(outs)))
+    rng.shuffle(perm)
+    again = {i: f(outs[i][0]) for i in perm}
+    f2 = fresh()
+    other = {i: f2(outs[i][0]) for i in reversed(perm)}
+    for i, (u, o) in enumerate(outs):
+        if again[i] != o or other[i] != o:
+            viol(f"{name}: the state returned for a uniform depends on the earlier draws", sampler=name, p=[str(x) for x in p], u=u,
+                 first=o, same_object_other_order=again[i], fresh_object=other[i])
+            return
+
+
 def direct_samplers(res, rng, groups, viol):
     from rpylib.distribution.variate.alias import AliasMethod
     from rpylib.distribution.variate.binarysearchtree import BinarySearchTree
@@ -299,7 +397,8 @@ def direct_samplers(res, rng, groups, viol):
         res.bump("vector_length", "1" if K == 1 else "2" if K == 2 else "3-9" if K < 10 else "10-99" if K < 100 else "100-400")
         res.bump("vector_has_zero", any(x == 0 for x in p))
         pl = lst([qlit(x) for x in p])
-        small = K <= (64 if tier == "quick" else 128)
+        is_prob = sum(p) == 1
+        small = K <= (64 if tier == "quick" else 128) and is_prob
 
         # ---- ALIAS
         try:
@@ -309,17 +408,34 @@ def direct_samplers(res, rng, groups, viol):
             br = []
             for x in range(K):
                 br += [Fr(x, K), (Fr(x) + q[x]) / K]
-            brf = [float(b) for b in br if Fr(float(b)) == b]
-            us = pick(rng, uniforms_around(rng, brf, 0, step=2.0 ** -40), max_break_us) + [rng.randrange(0, 1 << 30) / (1 << 30) for _ in range(n_rand)]
-            us = [u for u in us if Fr(u) * K == Fr(float(u) * K)] or [0.0]   # K*u exact in float
+            cands = {0.0}
+            for b_ in br:
+                for d_ in (Fr(0), Fr(-1, 1 << 30), Fr(1, 1 << 30)):
+                    cands.add(float(b_ + d_ / K))
+            cands |= {rng.randrange(0, 1 << 30) / (1 << 30) for _ in range(n_rand)}
+            brs = sorted(set(br))
+
+            def _safe_u(u):
+                """K*u is exact in float, or u stays 2^-40 away (in units of K*u) from every threshold so that the rounding
+                of the product K*u (<= 2^-50 relative) cannot change the column or the comparison v < q[x]"""
+                if not (0.0 <= u < 1.0):
+                    return False
+                if Fr(u) * K == Fr(float(u) * K):
+                    return True
+                i_ = bisect.bisect_left(brs, Fr(u))
+                near = [brs[j_] for j_ in (i_ - 1, i_) if 0 <= j_ < len(brs)]
+                return all(abs(Fr(u) - b_) * K > Fr(1, 1 << 40) for b_ in near)
+            us = pick(rng, sorted(u for u in cands if _safe_u(u)), max_break_us + n_rand) or [0.0]
+            res.bump("alias_K_pow2", K & (K - 1) == 0)
             outs = []
             for u in us:
                 o = int(a._draw_with_u(u))
                 outs.append((u, o))
                 res.count(("alias", cls, K, u), nontrivial=K >= 3, kind="AliasMethod._draw_with_u")
                 res.bump("alias_branch", "alias" if o != int(K * u) else "column")
-                if not (0 <= o < K) or p[o] == 0:
+                if not (0 <= o < K) or (p[o] == 0 and is_prob):
                     viol("AliasMethod returns a zero-probability or out-of-range state", sampler="alias", p=[str(x) for x in p], u=u, got=o)
+            _two_orders(rng, viol, "alias", p, outs, lambda u: int(a._draw_with_u(u)), lambda: (lambda a2: (lambda u: int(a2._draw_with_u(u))))(AliasMethod(pf, ident)))
             g_alias.append(f"({pl}, ({lst([zlit(v) for v in J])}, {lst([qlit(v) for v in q])}), {_qpairs(outs)})")
             if small:
                 oracle_jobs.append(("alias", cls, p, lambda u, a=a: int(a._draw_with_u(u)), _alias_hints(a)))
@@ -336,8 +452,9 @@ def direct_samplers(res, rng, groups, viol):
                 o = int(b.sample_with_u(u))
                 outs.append((u, o))
                 res.count(("bst", cls, K, u), nontrivial=K >= 3, kind="BinarySearchTree.sample_with_u")
-                if not (0 <= o < K) or p[o] == 0:
+                if not (0 <= o < K) or (p[o] == 0 and is_prob):
                     viol("BinarySearchTree returns a zero-probability or out-of-range state", sampler="bst", p=[str(x) for x in p], u=u, got=o)
+            _two_orders(rng, viol, "bst", p, outs, lambda u: int(b.sample_with_u(u)), lambda: (lambda b2: (lambda u: int(b2.sample_with_u(u))))(BinarySearchTree(pf, ident)))
             g_bst.append(f"({pl}, {lst([qlit(v) for v in arr])}, {_qpairs(outs)})")
             if small:
                 oracle_jobs.append(("bst", cls, p, lambda u, b=b: int(b.sample_with_u(u)), [float(v) for v in b.bst]))
@@ -354,8 +471,9 @@ def direct_samplers(res, rng, groups, viol):
                 o = int(H.sample_with_u(u, h.head)[0])
                 outs.append((u, o))
                 res.count(("huffman", cls, K, u), nontrivial=K >= 3, kind="huffmantree.sample_with_u")
-                if not (0 <= o < K) or p[o] == 0:
+                if not (0 <= o < K) or (p[o] == 0 and is_prob):
                     viol("HuffmanTree returns a zero-probability or out-of-range state", sampler="huffman", p=[str(x) for x in p], u=u, got=o)
+            _two_orders(rng, viol, "huffman", p, outs, lambda u: int(H.sample_with_u(u, h.head)[0]), lambda: (lambda h2: (lambda u: int(H.sample_with_u(u, h2.head)[0])))(H.HuffmanTree(pf, ident)))
             pre_l = lst([f"({zlit(s)}, {qlit(v)})" for s, v in pre])
             g_huff.append(f"({pl}, {pre_l}, {_qpairs(outs)})")
             if small:
@@ -363,48 +481,57 @@ def direct_samplers(res, rng, groups, viol):
         except Exception as e:  # noqa
             viol(f"HuffmanTree raises {type(e).__name__}", sampler="huffman", p=[str(x) for x in p], error=str(e)[:200])
 
-        # ---- TABLE (exact comparison when the residual sum is a power of two or zero, so that thetas / sum is exact)
-        try:
-            t = TableMethod(pf, ident)
-            Jt = [int(v) for v in t.J]
-            resid = 256 - sum(1 for v in Jt if v >= 0)
-            res.bump("table_residual", "none" if t.alias_method is None else "pow2" if resid & (resid - 1) == 0 else "other")
-            if any(v >= K for v in Jt) or len(Jt) != 256:
-                viol("TableMethod: table J is not 256 slots of valid states", sampler="table", p=[str(x) for x in p])
-            draws = []
-            bytes_ = pick(rng, range(256), 24) + [b_ for b_, v in enumerate(Jt) if v < 0][:8]
-            words = [((rng.randrange(1 << 24)) << 8) | b_ for b_ in bytes_]
-            script = list(words)
-            import random as _random
-            orig = _random.getrandbits
-            _random.getrandbits = lambda n: script.pop(0)
+        # ---- TABLE: J always compared; embedded alias tables and alias draws compared exactly when thetas / sum is
+        #      exact in float (residual sum a power of two); draws are 32-bit words fed through random.getrandbits
+        if is_prob:
             try:
-                got = [int(v) for v in t.sample(size=len(words))]
-            finally:
-                _random.getrandbits = orig
-            for w, o in zip(words, got):
-                res.count(("table", cls, K, w), nontrivial=K >= 3, kind="TableMethod.sample")
-                res.bump("table_branch", "table" if Jt[w & 255] >= 0 else "alias")
-                if not (0 <= o < K) or p[o] == 0:
-                    viol("TableMethod returns a zero-probability or out-of-range state", sampler="table", p=[str(x) for x in p], word=w, got=o)
-                draws.append((w & 255, Fr(w, 1 << 32), o))
-            exact = t.alias_method is None or resid & (resid - 1) == 0
-            if exact:
+                t = TableMethod(pf, ident)
+                Jt = [int(v) for v in t.J]
+                resid = 256 - sum(1 for v in Jt if v >= 0)
+                exact = t.alias_method is None or resid & (resid - 1) == 0
+                res.bump("table_residual", "none" if t.alias_method is None else "pow2" if exact else "other")
+                if any(v >= K for v in Jt) or len(Jt) != 256:
+                    viol("TableMethod: table J is not 256 slots of valid states", sampler="table", p=[str(x) for x in p])
+                resid_bytes = [b_ for b_, v in enumerate(Jt) if v < 0]
+                bytes_ = pick(rng, range(256), 24) + pick(rng, resid_bytes, 12)
+                words = [((rng.randrange(1 << 24)) << 8) | b_ for b_ in bytes_]
+                if t.alias_method is not None and exact:
+                    # words whose alias uniform w / 2^32 sits next to a threshold of the embedded alias tables
+                    aK = int(t.alias_method.K)
+                    for x in range(aK):
+                        thr = (Fr(x) + Fr(float(t.alias_method.q[x]))) / aK
+                        for b_ in pick(rng, resid_bytes, 2):
+                            m0 = int(thr * (1 << 24))
+                            for dm in (-1, 0, 1):
+                                if 0 <= m0 + dm < (1 << 24):
+                                    words.append(((m0 + dm) << 8) | b_)
+                    words = pick(rng, words, 120)
+                got = _table_words(t, words)
+                draws = []
+                for w, o in zip(words, got):
+                    res.count(("table", cls, K, w), nontrivial=K >= 3, kind="TableMethod.sample")
+                    res.bump("table_branch", "table" if Jt[w & 255] >= 0 else "alias")
+                    if not (0 <= o < K) or p[o] == 0:
+                        viol("TableMethod returns a zero-probability or out-of-range state", sampler="table", p=[str(x) for x in p], word=w, got=o)
+                    if exact or Jt[w & 255] >= 0:
+                        draws.append((w, o))
+                _two_orders(rng, viol, "table", p, [(w, o) for w, o in zip(words, got)], lambda w: _table_words(t, [w])[0],
+                            lambda: (lambda t2: (lambda w: _table_words(t2, [w])[0]))(TableMethod(pf, ident)))
                 if t.alias_method is None:
                     al = "None"
                 else:
                     al = f"(Some ({lst([zlit(int(v)) for v in t.alias_method.J])}, {lst([qlit(float(v)) for v in t.alias_method.q])}))"
-                dl = lst([f"({natlit(b_)}, {qlit(u)}, {zlit(o)})" for b_, u, o in draws])
-                g_table.append(f"({pl}, {lst([zlit(v) for v in Jt])}, {al}, {dl})")
-            if small:
-                oracle_jobs.append(("table", cls, p, t, None))
-        except Exception as e:  # noqa
-            viol(f"TableMethod raises {type(e).__name__}", sampler="table", p=[str(x) for x in p], error=str(e)[:200])
+                dl = lst([f"({zlit(w)}, {zlit(o)})" for w, o in draws])
+                g_table.append(f"({pl}, {lst([zlit(v) for v in Jt])}, {'true' if exact else 'false'}, {al}, {dl})")
+                if small:
+                    oracle_jobs.append(("table", cls, p, t, None))
+            except Exception as e:  # noqa
+                viol(f"TableMethod raises {type(e).__name__}", sampler="table", p=[str(x) for x in p], error=str(e)[:200])
 
     groups.append(("alias", "list Q * (list Z * list Q) * list (Q * Z)", "chk_alias", g_alias))
     groups.append(("bst", "list Q * list Q * list (Q * Z)", "chk_bst", g_bst))
     groups.append(("huffman", "list Q * list (Z * Q) * list (Q * Z)", "chk_huffman", g_huff))
-    groups.append(("table", "list Q * list Z * option (list Z * list Q) * list (nat * Q * Z)", "chk_table", g_table))
+    groups.append(("table", "list Q * list Z * bool * option (list Z * list Q) * list (Z * Z)", "chk_table", g_table))
 
     # ---- non-dyadic vectors: oracle only
     for cls, pf in nd_vectors(rng, tier):
@@ -429,16 +556,15 @@ def direct_samplers(res, rng, groups, viol):
         exact_vec = cls != "non-dyadic"
         if name == "table":
             t = f
-            Jt = [int(v) for v in t.J]
-            lengths = {}
-            for v in Jt:
-                if v >= 0:
-                    lengths[v] = lengths.get(v, Fr(0)) + Fr(1, 256)
-            nres = sum(1 for v in Jt if v < 0)
-            if nres:
-                al, _ = integrate_step_function(lambda u: int(t.alias_method._draw_with_u(u)), hints=_alias_hints(t.alias_method))
-                for k, ln in al.items():
-                    lengths[k] = lengths.get(k, Fr(0)) + ln * Fr(nres, 256)
+            full = K <= 6
+            counts, all_bytes = table_word_law(t, K, resid_limit=None if full else 4, rng=rng)
+            bad_slots = [k for k in counts if isinstance(k, tuple)]
+            if bad_slots:
+                viol("TableMethod: the state of a table slot depends on the upper 24 bits of the word (byte and alias uniform are not the ones of the algorithm)",
+                     sampler="table", p=[str(x) for x in p], byte=bad_slots[0][1])
+            lengths = {k: Fr(v) / (1 << 32) for k, v in counts.items() if not isinstance(k, tuple)}
+            # exact law over the words: within (pieces of the alias step function) * 2^-24 * (residual bytes / 256) of p
+            tol = Fr(2 * K + 2, 1 << 24) + Fr(1, 10 ** 9)
         else:
             lengths, _ = integrate_step_function(f, hints=hints)
         res.count(("law", name, cls, K, tuple(p)), nontrivial=K >= 3, kind=f"oracle-law-{name}")
@@ -456,30 +582,36 @@ def direct_samplers(res, rng, groups, viol):
 
 # ----------------------------------------------------------------------------- chains through the factory
 def make_chain_specs(rng, tier):
-    """(h, half number of points, cell masses as integers / 2^m with a power-of-two total)"""
+    """(h, points left of the origin, points right of it, cell masses with a power-of-two total, variant).
+    Centred and NON-centred axes (the real HEM uniform grid has its origin at 23 of 36)."""
     specs = []
-    shapes = [(0.25, 3), (0.5, 2), (0.125, 6), (0.25, 10), (1.0, 1), (0.0625, 20)] if tier == "quick" else \
-        [(0.25, 3), (0.5, 2), (0.125, 6), (0.25, 10), (1.0, 1), (0.0625, 20), (0.25, 4), (0.5, 7), (0.125, 33), (0.03125, 60)]
-    for h, half in shapes:
-        n = 2 * half + 1
+    shapes = [(0.25, 3, 3), (0.5, 2, 2), (0.125, 6, 6), (0.25, 10, 10), (1.0, 1, 1), (0.0625, 20, 20),
+              (0.25, 2, 5), (0.5, 5, 1), (0.125, 23, 12), (0.25, 1, 4)]
+    if tier != "quick":
+        shapes += [(0.25, 4, 4), (0.5, 7, 7), (0.125, 33, 33), (0.03125, 60, 60), (0.25, 12, 23), (0.5, 1, 9), (0.25, 9, 2)]
+    for h, L, R in shapes:
+        n = L + R + 1
         for variant in ("generic", "zeros", "one-sided"):
             tot = 1 << 12
             zero_frac = 0.0 if variant == "generic" else 0.4
             ints = _composition(rng, tot, n - 1, zero_frac=zero_frac)
             if variant == "one-sided":
-                ints = [0] * half + _composition(rng, tot, half, zero_frac=0.2) if rng.random() < 0.5 else _composition(rng, tot, half, zero_frac=0.2) + [0] * half
-            masses = ints[:half] + [0] + ints[half:]
+                ints = [0] * L + _composition(rng, tot, R, zero_frac=0.2) if rng.random() < 0.5 else _composition(rng, tot, L, zero_frac=0.2) + [0] * R
+            masses = ints[:L] + [0] + ints[L:]
             lam_pow = rng.choice([-1, 0, 1, 2])
             masses = [Fr(v, tot) * Fr(2) ** lam_pow for v in masses]
-            specs.append((h, half, masses, variant))
+            specs.append((h, L, R, masses, variant))
     return specs
 
 
-def build_chain(h, half, masses, method):
+def build_chain(h, half, masses, method, right=None):
+    """1-d chain on the axis [-half*h, ..., right*h] (right defaults to half) through the public MarkovChainProcess"""
     from c02_stepmodel import C02StepModel, measure_from_cell_masses
-    from rpylib.grid.spatial import CTMCUniformGrid
+    from rpylib.grid.spatial import CTMCGrid
     from rpylib.process.markovchain.markovchain import MarkovChainProcess
-    grid = CTMCUniformGrid.create_from_fixed_nb_of_points(h=h, nb_of_points=2 * half)
+    right = half if right is None else right
+    axis = np.array([k * h for k in range(-half, right + 1)], dtype=float)
+    grid = CTMCGrid(h=h, origin_coordinate=half, axes=[axis])
     meas = measure_from_cell_masses(grid.axes[0], half, masses)
     model = C02StepModel(meas)
     proc = MarkovChainProcess(model, method, grid)
@@ -490,101 +622,123 @@ def _pieces_lit(meas):
     return lst([f"({qlit(l)}, {qlit(r)}, {qlit(d)})" for l, r, d in meas.pieces])
 
 
+RIGHT_CLOSED = ("INVERSION", "BINARYSEARCHTREEADAPTED1D", "INVERSION-2d", "BINARYSEARCHTREEADAPTED-2d")
+
+
+def _scripted_uniforms(us):
+    return lambda low=0.0, high=1.0, size=None: np.array(us[: size], dtype=float) * (high - low) + low
+
+
 def chains(res, rng, groups, viol):
     from rpylib.distribution.sampling import SamplingMethod as SM
     from rpylib.distribution.variate import huffmantree as H
-    import random as _random
+    from rpylib.distribution import pairing as P
+    from rpylib.distribution.samplingfactory import create_q_vector, create_vec_jump_matrix
     tier = res.tier
-    g_inv, g_ba = [], []
-    for h, half, masses, variant in make_chain_specs(rng, tier):
-        n = 2 * half + 1
+    g_inv, g_ba, g_vec = [], [], []
+    for h, L, R, masses, variant in make_chain_specs(rng, tier):
+        n = L + R + 1
         lam = sum(masses)
-        target = {k - half: m / lam for k, m in enumerate(masses) if k != half}
+        target = {k - L: m / lam for k, m in enumerate(masses) if k != L}
         res.bump("chain_variant", variant)
-        res.bump("chain_points", n)
+        res.bump("chain_shape", "centred" if L == R else "non-centred")
+        ctx0 = dict(h=h, left=L, right=R, masses=[str(m) for m in masses])
+        pairing = P.PairingToZ1d((-L, R), omit_zero=True)
+        enum = [int(pairing.project(x)) for x in range(L + R)]          # enumeration of the inversion method (C14)
+        first_state = {"INVERSION": enum[0], "BINARYSEARCHTREEADAPTED1D": -L}
 
         def check_state(name, s, u):
             s = int(s)
-            if s == 0 or not (-half <= s <= half):
-                viol(f"{name} through the factory returns the origin or a state outside the grid", sampler=name, h=h, half=half,
-                     masses=[str(m) for m in masses], u=u, got=s)
+            if s == 0 or not (-L <= s <= R):
+                viol(f"{name} through the factory returns the origin or a state outside the grid", sampler=name, u=u, got=s, **ctx0)
                 return False
-            if target[s] == 0 and u != 0.0:
-                viol(f"{name} through the factory returns a zero-probability state", sampler=name, h=h, half=half,
-                     masses=[str(m) for m in masses], u=u, got=s)
+            if target[s] == 0 and u == 0.0 and name in RIGHT_CLOSED:
+                viol(f"{name}: the uniform 0.0 is sent to a state of probability zero", finding="F-C02-6", sampler=name, u=u, got=s,
+                     first_enumerated_state=first_state.get(name), probability_of_got=str(target[s]), **ctx0)
                 return False
-            if target[s] == 0 and u == 0.0:
-                viol(f"{name}: the uniform 0.0 is sent to a state of probability zero", finding="F-C02-6", sampler=name, h=h, half=half,
-                     masses=[str(m) for m in masses], u=u, got=s)
+            if target[s] == 0:
+                viol(f"{name} through the factory returns a zero-probability state", sampler=name, u=u, got=s, **ctx0)
                 return False
             return True
 
         cum_axis_order, acc = [], Fr(0)
-        for k in list(range(0, half)) + list(range(half + 1, n)):
+        for k in list(range(0, L)) + list(range(L + 1, n)):
             acc += masses[k] / lam
             cum_axis_order.append(acc)
         cum_pairing_order, acc = [], Fr(0)
-        for x in range(2 * half):                      # symmetric interval: 1, -1, 2, -2, ...
-            st = (x // 2 + 1) * (1 if x % 2 == 0 else -1)
+        for st in enum:
             acc += target[st]
             cum_pairing_order.append(acc)
 
         for method in (SM.ALIAS, SM.TABLE, SM.BINARYSEARCHTREE, SM.HUFFMANNTREE, SM.INVERSION, SM.BINARYSEARCHTREEADAPTED1D):
             name = method.name
+            mk = lambda: build_chain(h, L, masses, method, right=R)
             try:
-                proc, grid, meas = build_chain(h, half, masses, method)
+                proc, grid, meas = mk()
             except Exception as e:  # noqa
-                viol(f"factory raises {type(e).__name__} for SamplingMethod.{name}", sampler=name, h=h, half=half,
-                     masses=[str(m) for m in masses], error=str(e)[:200])
+                viol(f"factory raises {type(e).__name__} for SamplingMethod.{name}", sampler=name, error=str(e)[:200], **ctx0)
                 continue
             if Fr(float(proc.intensity_of_jumps)) != lam:
-                res.broke("chain intensity", f"intensity {proc.intensity_of_jumps} != {lam} for h={h} half={half}")
+                res.broke("chain intensity", f"intensity {proc.intensity_of_jumps} != {lam} for h={h} L={L} R={R}")
                 continue
             s = proc.sampling
-            # single-uniform entry point of the sampler behind the factory (index -> increment through `states`)
+
+            def entry(smp):
+                # single-uniform entry point of the sampler behind the factory (index -> increment through `states`)
+                if name == "ALIAS":
+                    return lambda u: int(smp.states([smp._draw_with_u(u)])[0])
+                if name == "HUFFMANNTREE":
+                    return lambda u: int(smp.states(H.sample_with_u(u, smp.head)[0]))
+                if name == "TABLE":
+                    return None
+                return lambda u: int(smp.sample_with_u(u))
+            one = entry(s)
+
+            # ---- the vector the factory hands to the table-driven samplers, and its `states` map (Model/Factory.v)
             if name == "ALIAS":
-                one = lambda u: int(s.states([s._draw_with_u(u)])[0])
-            elif name == "BINARYSEARCHTREE":
-                one = lambda u: int(s.sample_with_u(u))
-            elif name == "HUFFMANNTREE":
-                one = lambda u: int(s.states(H.sample_with_u(u, s.head)[0]))
-            elif name in ("INVERSION", "BINARYSEARCHTREEADAPTED1D"):
-                one = lambda u: int(s.sample_with_u(u))
-            else:
-                one = None
+                qv = create_q_vector(proc.model.levy_triplet.nu, grid)
+                jv = create_vec_jump_matrix(q_vector=qv.copy(), init_state=grid.origin_coordinate, intensity_of_jumps=proc.intensity_of_jumps)
+                st_map = [int(v) for v in s.states(list(range(n)))]
+                g_vec.append(f"({lst([qlit(float(v)) for v in qv])}, {qlit(lam)}, {zlit(L)}, {lst([qlit(float(v)) for v in jv])}, {lst([zlit(v) for v in st_map])})")
+                res.count(("vec", h, L, R, tuple(masses)), kind="create_vec_jump_matrix + states")
+                if Fr(float(jv[L])) != 0 or st_map[L] != 0 or sorted(st_map) != list(range(-L, R + 1)):
+                    viol("factory: the jump vector does not give probability 0 to the origin, or `states` is not index - origin", sampler="factory", **ctx0)
+
             # ---- batch sample() against the single-uniform entry point
             us = [rng.randrange(0, 1 << 30) / (1 << 30) for _ in range(16)] + [0.0, ulp_down(1.0)]
             if name == "TABLE":
                 words = [rng.getrandbits(32) for _ in range(24)]
-                script = list(words)
-                orig = _random.getrandbits
-                _random.getrandbits = lambda nb: script.pop(0)
-                try:
-                    got = [int(v) for v in s.sample(size=len(words))]
-                finally:
-                    _random.getrandbits = orig
+                got = _table_words(s, words)
                 for w, o in zip(words, got):
-                    res.count(("factory-table", h, half, tuple(masses), w), kind="factory TABLE sample")
+                    res.count(("factory-table", h, L, R, tuple(masses), w), kind="factory TABLE sample")
                     check_state(name, o, w / 2.0 ** 32 or 0.5)
                     ji = s.J[w & 255]
                     want = int(s.states(ji)) if ji >= 0 else int(s.states(s.alias_method._draw_with_u(w * s._cst)))
                     if want != o:
-                        viol("TableMethod.sample differs from the table/alias lookup for the same 32-bit word", sampler=name, word=w, got=o, want=want)
+                        viol("TableMethod.sample differs from the table/alias lookup for the same 32-bit word", sampler=name, word=w, got=o, want=want, **ctx0)
             else:
                 orig_u = np.random.uniform
-                np.random.uniform = lambda low=0.0, high=1.0, size=None: np.array(us[: size], dtype=float) * (high - low) + low
+                np.random.uniform = _scripted_uniforms(us)
                 try:
                     batch = [int(v) for v in s.sample(size=len(us))]
                 finally:
                     np.random.uniform = orig_u
-                fresh, _, _ = build_chain(h, half, masses, method)
-                fs = fresh.sampling
+                fone = entry(mk()[0].sampling)
                 for u, o in zip(us, batch):
-                    res.count(("factory", name, h, half, tuple(masses), u), kind=f"factory {name} sample")
+                    res.count(("factory", name, h, L, R, tuple(masses), u), kind=f"factory {name} sample")
                     check_state(name, o, u)
-                    if one(u) != o:
-                        viol(f"{name}: batch sample() and the single-uniform entry point disagree for the same uniform", sampler=name, h=h,
-                             half=half, masses=[str(m) for m in masses], u=u, batch=o, single=one(u))
+                    if fone(u) != o:
+                        viol(f"{name}: batch sample() and the single-uniform entry point disagree for the same uniform", sampler=name,
+                             u=u, batch=o, single=fone(u), **ctx0)
+                # the same uniforms in another order, on the object that has already served the batch
+                perm = list(range(len(us)))
+                rng.shuffle(perm)
+                again = {i: one(us[i]) for i in perm}
+                bad = [i for i in range(len(us)) if again[i] != batch[i]]
+                if bad:
+                    viol(f"{name}: the state returned for a uniform depends on the earlier draws", sampler=name, u=us[bad[0]],
+                         first=batch[bad[0]], second=again[bad[0]], **ctx0)
+
             # ---- law of the chain sampler (oracle, exact up to 2^-30 per change point)
             if one is not None and n <= 25:
                 if name == "ALIAS":
@@ -596,31 +750,23 @@ def chains(res, rng, groups, viol):
                 else:
                     hints = [float(c) for c in cum_axis_order + cum_pairing_order]
                 lengths, _ = integrate_step_function(one, hints=hints)
-                res.count(("factory-law", name, h, half, tuple(masses)), kind=f"oracle-law-factory-{name}")
+                res.count(("factory-law", name, h, L, R, tuple(masses)), kind=f"oracle-law-factory-{name}")
                 for st, pr in target.items():
                     if abs(lengths.get(st, Fr(0)) - pr) > Fr(1, 10 ** 9):
                         viol(f"{name} through the factory: total length of the uniforms sent to a state differs from rate/intensity",
-                             sampler=name, h=h, half=half, masses=[str(m) for m in masses], state=st,
-                             length=float(lengths.get(st, Fr(0))), target=float(pr))
+                             sampler=name, state=st, length=float(lengths.get(st, Fr(0))), target=float(pr), **ctx0)
                         break
                 extra = [st for st in lengths if st not in target or (target[st] == 0 and lengths[st] > 0)]
                 if extra:
                     viol(f"{name} through the factory: origin / out-of-grid / zero-probability state has positive length", sampler=name,
-                         h=h, half=half, masses=[str(m) for m in masses], state=int(extra[0]))
+                         state=int(extra[0]), **ctx0)
 
             # ---- INVERSION: operation sequences, compared with Model/Inversion.v, and replayed in a second order
             if name == "INVERSION":
-                cum = []
-                acc = Fr(0)
-                for x in range(2 * half):
-                    st = int(s.state_manager.pairing.project(x))
-                    acc += target[st]
-                    cum.append(acc)
-                brk = uniforms_around(rng, [float(c) for c in cum], 0)
+                brk = uniforms_around(rng, [float(c) for c in cum_pairing_order], 0)
                 for M in ([1, 2, 3, 5, None] if tier == "quick" else [1, 2, 3, 4, 5, 8, 50, None]):
                     for order in ("random", "ascending", "descending", "repeats", "breakpoints"):
-                        proc2, _, _ = build_chain(h, half, masses, method)
-                        s2 = proc2.sampling
+                        s2 = mk()[0].sampling
                         if M is not None:
                             s2._max_storage = M
                         nd = rng.choice([1, 2, 5, 20, 60]) if tier == "quick" else rng.choice([1, 3, 10, 50, 200])
@@ -639,13 +785,12 @@ def chains(res, rng, groups, viol):
                         for u in seq:
                             o = int(s2.sample_with_u(u))
                             outs.append(o)
-                            res.count(("inv", h, half, tuple(masses), M, order, u, len(outs)), kind="InversionMethod.sample_with_u (sequence)")
+                            res.count(("inv", h, L, R, tuple(masses), M, order, u, len(outs)), kind="InversionMethod.sample_with_u (sequence)")
                             check_state(name, o, u)
                         res.bump("inversion_order", order)
                         res.bump("inversion_max_storage", M)
                         # the same uniforms in another order on a fresh sampler: outputs must be a function of u only
-                        proc3, _, _ = build_chain(h, half, masses, method)
-                        s3 = proc3.sampling
+                        s3 = mk()[0].sampling
                         if M is not None:
                             s3._max_storage = M
                         perm = list(range(len(seq)))
@@ -656,37 +801,59 @@ def chains(res, rng, groups, viol):
                         diff = [i for i in range(len(seq)) if outs3[i] != outs[i]]
                         if diff:
                             i = diff[0]
-                            viol("InversionMethod: the state returned for a uniform depends on the earlier draws", sampler=name, h=h, half=half,
-                                 masses=[str(m) for m in masses], max_storage=M, sequence=seq, order2=perm, index=i, first=outs[i], second=outs3[i])
+                            viol("InversionMethod: the state returned for a uniform depends on the earlier draws", sampler=name,
+                                 max_storage=M, sequence=seq, order2=perm, index=i, first=outs[i], second=outs3[i], **ctx0)
                         Mz = 1_000_000 if M is None else M
                         final_cum = lst([qlit(float(c)) for c in s2._cumulative_probabilities])
-                        g_inv.append(f"({lst([qlit(float(x)) for x in grid.axes[0]])}, {zlit(half)}, {_pieces_lit(meas)}, {qlit(lam)}, {zlit(Mz)}, "
-                                     f"{_qpairs(zip(seq, outs))}, {final_cum}, {zlit(int(s2.state_manager._last_projected_index))})")
+                        sm = s2.state_manager
+                        g_inv.append(f"({lst([qlit(float(x)) for x in grid.axes[0]])}, {zlit(L)}, {zlit(int(sm.max_frontier_indices))}, {_pieces_lit(meas)}, {qlit(lam)}, {zlit(Mz)}, "
+                                     f"{_qpairs(zip(seq, outs))}, {final_cum}, {zlit(int(sm._last_projected_index))})")
+                # batch sample(size) with a lowered storage against the single-uniform entry point: the batch contains
+                # uniforms beyond the stored cumulative sums, in several orders
+                for M in (1, 2, 3, 5, 20):
+                    nb = rng.choice([4, 12, 40])
+                    base = [rng.randrange(0, 1 << 30) / (1 << 30) for _ in range(nb)] + [ulp_down(1.0), 0.5 + 2.0 ** -20]
+                    for order in ("ascending", "descending", "shuffled"):
+                        us_b = sorted(base) if order == "ascending" else sorted(base, reverse=True) if order == "descending" else rng.sample(base, len(base))
+                        s4 = mk()[0].sampling
+                        s4._max_storage = M
+                        if rng.random() < 0.5:
+                            s4.sample_with_u(rng.random())          # a warm history before the batch
+                        orig_u = np.random.uniform
+                        np.random.uniform = _scripted_uniforms(us_b)
+                        try:
+                            batch = [int(v) for v in s4.sample(size=len(us_b))]
+                        finally:
+                            np.random.uniform = orig_u
+                        res.bump("inversion_batch_lowered_storage", M)
+                        for u, o in zip(us_b, batch):
+                            res.count(("inv-batch", h, L, R, tuple(masses), M, order, u), kind="InversionMethod.sample (batch, lowered storage)")
+                            if o != one(u):
+                                viol("InversionMethod: batch sample() with a full storage and the single-uniform entry point disagree for the same uniform",
+                                     sampler=name, max_storage=M, order=order, u=u, batch=o, single=one(u), batch_uniforms=us_b, **ctx0)
+                                break
 
             # ---- BINARYSEARCHTREEADAPTED1D draws against Model/BstAdapted.v
             if name == "BINARYSEARCHTREEADAPTED1D":
-                order = list(range(0, half)) + list(range(half + 1, n))
-                acc = Fr(0)
-                cum = []
-                for k in order:
-                    acc += masses[k] / lam
-                    cum.append(acc)
-                us2 = pick(rng, uniforms_around(rng, [float(c) for c in cum], 0), 60) + [rng.randrange(0, 1 << 30) / (1 << 30) for _ in range(12)]
+                us2 = pick(rng, uniforms_around(rng, [float(c) for c in cum_axis_order], 0), 60) + [rng.randrange(0, 1 << 30) / (1 << 30) for _ in range(12)]
                 outs = []
                 for u in us2:
                     o = int(s.sample_with_u(u))
                     outs.append(o)
-                    res.count(("ba1d", h, half, tuple(masses), u), kind="BinarySearchTreeAdapted1D.sample_with_u")
+                    res.count(("ba1d", h, L, R, tuple(masses), u), kind="BinarySearchTreeAdapted1D.sample_with_u")
                     check_state(name, o, u)
-                # second pass in reverse order on the same object (lru cache warm): same answers
+                # second pass in reverse order on the same object (lru cache warm) and on a fresh object: same answers
                 outs_b = [int(s.sample_with_u(u)) for u in reversed(us2)][::-1]
-                if outs_b != outs:
-                    viol("BinarySearchTreeAdapted1D: the state returned for a uniform depends on the earlier draws", sampler=name, h=h, half=half,
-                         masses=[str(m) for m in masses])
-                g_ba.append(f"({lst([qlit(float(x)) for x in grid.axes[0]])}, {zlit(half)}, {_pieces_lit(meas)}, {qlit(lam)}, {qlit(h)}, {_qpairs(zip(us2, outs))})")
+                s5 = mk()[0].sampling
+                outs_c = [int(s5.sample_with_u(u)) for u in us2]
+                if outs_b != outs or outs_c != outs:
+                    viol("BinarySearchTreeAdapted1D: the state returned for a uniform depends on the earlier draws / on another instance",
+                         sampler=name, **ctx0)
+                g_ba.append(f"({lst([qlit(float(x)) for x in grid.axes[0]])}, {zlit(L)}, {_pieces_lit(meas)}, {qlit(lam)}, {qlit(h)}, {_qpairs(zip(us2, outs))})")
 
-    groups.append(("inversion", "list Q * Z * list (Q * Q * Q) * Q * Z * list (Q * Z) * list Q * Z", "chk_inversion", g_inv))
+    groups.append(("inversion", "list Q * Z * Z * list (Q * Q * Q) * Q * Z * list (Q * Z) * list Q * Z", "chk_inversion", g_inv))
     groups.append(("bstadapted1d", "list Q * Z * list (Q * Q * Q) * Q * Q * list (Q * Z)", "chk_ba1d", g_ba))
+    groups.append(("factoryvec", "list Q * Q * Z * list Q * list Z", "chk_factory_vec", g_vec))
 
 
 # ----------------------------------------------------------------------------- probability-step grid (oracle only)
@@ -820,13 +987,33 @@ def chain_2d(res, rng, groups, viol):
                 return lambda u: tuple(int(x) for x in smp.sample_with_us(np.array([u], dtype=float))[0])
             one = entry(s)
 
+            from rpylib.distribution import pairing as P
+            pz = P.PairingToZd(pairing=P.Szudzik(), dimension=2)
+            in_box = lambda st: all(-L <= c_ <= R for c_ in st)
+            F_ = int(s.state_manager.max_frontier_indices) if method == SM.INVERSION else 0
+            adm = [i for i in range(F_ + 1) if in_box(tuple(int(c_) for c_ in pz.project(i)))] if method == SM.INVERSION else []
+            first_state = tuple(int(c_) for c_ in pz.project(adm[0])) if method == SM.INVERSION else (0, -L)
+
             def check_state(st, u, extra=None):
                 if st == (0, 0) or st not in target:
                     viol(f"{name} through the factory returns the origin or a state outside the grid", u=u, got=list(st), **ctx, **(extra or {}))
                 elif target[st] == 0 and u == 0.0:
-                    viol(f"{name}: the uniform 0.0 is sent to a state of probability zero", finding="F-C02-6", u=u, got=list(st), **ctx)
+                    viol(f"{name}: the uniform 0.0 is sent to a state of probability zero", finding="F-C02-6", u=u, got=list(st),
+                         first_enumerated_state=list(first_state), probability_of_got=str(target[st]), **ctx)
                 elif target[st] == 0:
                     viol(f"{name} through the factory returns a zero-probability state", u=u, got=list(st), **ctx, **(extra or {}))
+
+            def restart_model(M, u):
+                """what the faithful model (C02_inversion_overflow_refuted) predicts when the storage holds M sums: the
+                enumeration continues at the PAIRING index M instead of after the M-th admissible index"""
+                seq_idx = adm if M is None or M >= len(adm) else adm[:M] + [i for i in adm if i >= M]
+                acc = Fr(0)
+                for i in seq_idx:
+                    st_ = tuple(int(c_) for c_ in pz.project(i))
+                    acc += target[st_]
+                    if Fr(u) <= acc:
+                        return st_
+                return None
 
             # batch sample() against the single-uniform entry point
             us = [rng.randrange(0, 1 << 30) / (1 << 30) for _ in range(12)] + [0.0, top]
@@ -842,6 +1029,16 @@ def chain_2d(res, rng, groups, viol):
                 check_state(st, u)
                 if fone(u) != st:
                     viol(f"{name}: batch sample() and the single-uniform entry point disagree for the same uniform", u=u, batch=list(st), single=list(fone(u)), **ctx)
+
+            if method == SM.BINARYSEARCHTREEADAPTED:
+                arr = np.array([rng.randrange(0, 1 << 30) / (1 << 30) for _ in range(8)], dtype=float)
+                keep = arr.copy()
+                r1 = [tuple(int(x) for x in v) for v in s.sample_with_us(arr)]
+                r2 = [tuple(int(x) for x in v) for v in s.sample_with_us(arr)]
+                res.count(("same-array", name, copula_name, h, L, R), kind="sample_with_us twice with the same array")
+                if r1 != r2 or not np.array_equal(arr, keep):
+                    viol(f"{name}: sample_with_us overwrites the caller's uniforms: a second call with the same array returns other states",
+                         uniforms=[float(x) for x in keep], first=[list(x) for x in r1], second=[list(x) for x in r2], **ctx)
 
             # law
             one(top)
@@ -885,8 +1082,32 @@ def chain_2d(res, rng, groups, viol):
                 bad = [i for i in range(len(seq)) if outs[0][i] != ref[i]]
                 if bad and M is not None:
                     i = bad[0]
+                    pred = restart_model(M, seq[i]) if method == SM.INVERSION else None
                     viol(f"{name}: when the storage (_max_storage) fills up the enumeration restarts at the wrong index: wrong state for this uniform",
-                         finding="F-C02-7", max_storage=M, u=seq[i], got=list(outs[0][i]), with_default_storage=list(ref[i]), **ctx)
+                         finding="F-C02-7", max_storage=M, u=seq[i], got=list(outs[0][i]), with_default_storage=list(ref[i]),
+                         predicted_by_model=list(pred) if pred else None, admissible_states=len(adm),
+                         inadmissible_below_storage=(adm[M - 1] - (M - 1)) if len(adm) > M else 0, **ctx)
+                if method == SM.INVERSION and M is not None:
+                    # batch sample(size) with the lowered storage against the single-uniform entry point with the same storage
+                    base = [rng.randrange(0, 1 << 30) / (1 << 30) for _ in range(10)] + [top, 0.5 + 2.0 ** -20]
+                    for order_b in ("ascending", "descending", "shuffled"):
+                        us_b = sorted(base) if order_b == "ascending" else sorted(base, reverse=True) if order_b == "descending" else rng.sample(base, len(base))
+                        s4, s5 = mk()[0].sampling, mk()[0].sampling
+                        s4._max_storage = M
+                        s5._max_storage = M
+                        orig_u = np.random.uniform
+                        np.random.uniform = _scripted_uniforms(us_b)
+                        try:
+                            batch_b = [tuple(int(x) for x in v) for v in s4.sample(size=len(us_b))]
+                        finally:
+                            np.random.uniform = orig_u
+                        f5 = entry(s5)
+                        for u, o in zip(us_b, batch_b):
+                            res.count(("inv2d-batch", copula_name, h, L, R, M, order_b, u), kind="InversionMethod-2d.sample (batch, lowered storage)")
+                            if o != f5(u):
+                                viol(f"{name}: batch sample() with a full storage and the single-uniform entry point disagree for the same uniform",
+                                     max_storage=M, order=order_b, u=u, batch=list(o), single=list(f5(u)), **ctx)
+                                break
                 if method == SM.INVERSION and exact:
                     tab = lst([f"({zlit(a_)}, {zlit(b_)}, {qlit(pr)})" for (a_, b_), pr in sorted(target.items())])
                     draws = lst([f"({qlit(seq[i])}, ({zlit(outs[0][i][0])}, {zlit(outs[0][i][1])}))" for i in range(len(seq))])
@@ -899,7 +1120,7 @@ def chain_2d(res, rng, groups, viol):
 # ----------------------------------------------------------------------------- Coq header (check functions)
 HEADER = r"""
 From Coq Require Import List ZArith QArith Bool.
-From RV Require Import Base.QB Base.Corr Gen.GenPairing Model.Pairing Model.StepLaw Model.Bst Model.Alias Model.Huffman Model.Table Model.Inversion Model.BstAdapted.
+From RV Require Import Base.QB Base.Corr Gen.GenPairing Model.Pairing Model.StepLaw Model.Bst Model.Alias Model.Huffman Model.Table Model.Inversion Model.BstAdapted Model.Factory.
 Import ListNotations.
 Open Scope Q_scope.
 
@@ -927,15 +1148,20 @@ Definition chk_huffman (c : list Q * list (Z * Q) * list (Q * Z)) : bool :=
   | None => false
   end.
 
-Definition chk_table (c : list Q * list Z * option (list Z * list Q) * list (nat * Q * Z)) : bool :=
-  let '(p, J, al, draws) := c in
+Definition chk_table (c : list Q * list Z * bool * option (list Z * list Q) * list (Z * Z)) : bool :=
+  let '(p, J, exact, al, draws) := c in
   let t := create_table p in
   (match t, al with
-   | TableAlias J' aJ aq, Some (iJ, iq) => zlist_eqb J' J && znat_eqb aJ iJ && qlist_eqb aq iq
+   | TableAlias J' aJ aq, Some (iJ, iq) => zlist_eqb J' J && (negb exact || (znat_eqb aJ iJ && qlist_eqb aq iq))
    | TableOnly J', None => zlist_eqb J' J
    | _, _ => false
    end)
-  && forallb (fun d => let '(b, u, o) := d in option_eqb Z.eqb (table_draw t b u) (Some o)) draws.
+  && forallb (fun d => option_eqb Z.eqb (table_draw_word t (fst d)) (Some (snd d))) draws.
+
+Definition chk_factory_vec (c : list Q * Q * Z * list Q * list Z) : bool :=
+  let '(qv, lam, o, jv, stmap) := c in
+  qlist_eqb (vec_jump qv lam (Z.to_nat o)) jv
+  && zlist_eqb (map (fun k => states_map o (Z.of_nat k)) (seq 0 (length qv))) stmap.
 
 (* probability_to_jump_to_state of the factory on a step measure: max(mass(cell), 0) / intensity *)
 Definition cell_prob (axis : list Q) (o : Z) (pieces : list (Q * Q * Q)) (lam : Q) (s : Z) : Q :=
@@ -944,20 +1170,20 @@ Definition cell_prob (axis : list Q) (o : Z) (pieces : list (Q * Q * Q)) (lam : 
 
 Definition iout_z (o : @iout Z) : Z := match o with Out s => s | Frontier => 999999%Z | NoOut => 888888%Z end.
 
-Definition chk_inversion (c : list Q * Z * list (Q * Q * Q) * Q * Z * list (Q * Z) * list Q * Z) : bool :=
-  let '(axis, o, pieces, lam, M, draws, final_cum, final_lpi) := c in
+Definition chk_inversion (c : list Q * Z * Z * list (Q * Q * Q) * Q * Z * list (Q * Z) * list Q * Z) : bool :=
+  let '(axis, o, F, pieces, lam, M, draws, final_cum, final_lpi) := c in     (* F = the implementation's max_frontier_indices *)
   let L := o in let R := (Z.of_nat (length axis) - o - 1)%Z in
   let proj := z1d_project (- L) R 1 in
-  let F := Z.max (z1d_pair (- L) R 1 (- L)) (z1d_pair (- L) R 1 R) in
   let prob := cell_prob axis o pieces lam in
-  match inv_init proj (fun _ => true) F prob with
+  let inside := fun s : Z => ((- L <=? s) && (s <=? R))%Z in      (* not StatesManager.is_outside: inside the grid *)
+  match inv_init proj inside F prob with
   | None => false
   | Some st0 =>
       let fix go (st : @ist Z) (l : list (Q * Z)) : bool * @ist Z :=
         match l with
         | [] => (true, st)
         | (u, want) :: r =>
-            let so := inv_step proj (fun _ => true) F prob M st u in
+            let so := inv_step proj inside F prob M st u in
             if Z.eqb (iout_z (snd so)) want then go (fst so) r else (false, fst so)
         end in
       let '(ok, st) := go st0 draws in
@@ -1045,6 +1271,27 @@ def _safe(f, job):
         return f(job)
     except CoqError as e:
         return job, e
+
+
+def matches_known(v, known):
+    """a violation tagged with a recorded finding is accepted only if it IS that finding (witness class + the behaviour the
+    faithful model predicts); anything else carrying the tag is a new violation."""
+    r = v["replay"]
+    if known["id"] == "F-C02-6":
+        # only the right-closed samplers, only the uniform 0.0 exactly, only the first enumerated state, only if that state has
+        # probability zero.  For alias / table / bst / huffman the same symptom contradicts C02_*_law: never matched.
+        got = r.get("got")
+        first = r.get("first_enumerated_state")
+        return (r.get("sampler") in RIGHT_CLOSED and r.get("u") == 0.0 and first is not None and got == first
+                and r.get("probability_of_got") == "0")
+    if known["id"] == "F-C02-7":
+        # only n-d INVERSION on a grid whose origin is not centred, storage really full with an inadmissible index below it,
+        # and the wrong state is exactly the one the faithful model (restart at the pairing index _max_storage) predicts
+        return (r.get("sampler") == "INVERSION-2d" and r.get("left") != r.get("right") and isinstance(r.get("max_storage"), int)
+                and r.get("admissible_states", 0) > r["max_storage"] and r.get("inadmissible_below_storage", 0) > 0
+                and r.get("predicted_by_model") is not None and r.get("got") == r.get("predicted_by_model")
+                and r.get("got") != r.get("with_default_storage"))
+    return False
 
 
 def _direct(name, p):
